@@ -27,11 +27,11 @@ def parse_playback(out: str):
     return [r for r in res if r[2] != "cover"]
 
 
-def kani_playback(tree_crate: str, harness: str, timeout_s: int = 900):
+def kani_playback(tree_crate: str, harness: str, timeout_s: int = 900, mem_kb: int = 12000000):
     tgt = os.environ.get("VERIF_KANI_TARGET", "/var/tmp/patronus-verif-kani-target")
     env = dict(os.environ, CARGO_NET_OFFLINE="true", CARGO_TARGET_DIR=tgt)
     cmd = ["cargo", "kani", "--harness", harness, "-Z", "concrete-playback", "--concrete-playback=print", "--output-format", "terse"]
-    p = subprocess.run(["bash", "-c", "ulimit -v 12000000; exec " + " ".join(cmd)], cwd=tree_crate, capture_output=True, text=True,
+    p = subprocess.run(["bash", "-c", f"ulimit -v {mem_kb}; exec " + " ".join(cmd)], cwd=tree_crate, capture_output=True, text=True,
                        timeout=timeout_s, env=env)
     return parse_playback(p.stdout + "\n" + p.stderr), (p.stdout + p.stderr)[-1500:]
 
@@ -73,8 +73,32 @@ def make_replay_tree(repo: str, dest: str, file_rel: str, inject_rel: str) -> st
     return dest
 
 
+def search_baa(prop, o, repo: str, scratch: str):
+    from engine import kl
+    crate = os.path.join(scratch, "baa_kernels")
+    if not os.path.isdir(crate) or kl.LAST_BAA_GEN is None:
+        return None
+    t0 = time.time()
+    pb, tail = kani_playback(crate, o.name, timeout_s=3000, mem_kb=30000000)
+    if not pb:
+        return {"reproduced": False, "reason": "Kani printed no concrete playback values for a failed check", "kani_tail": tail}
+    rc = kl.make_baa_replay_crate(os.path.join(scratch, "baa_replay"), repo, kl.LAST_BAA_GEN, o.name)
+    w = None
+    for values, notes, cls, chk in pb[:3]:
+        r = run_replay(rc, "baa_kernels", o.name, values)
+        w = {"reproduced": r["reproduced"], "harness": o.name, "kani_values": values, "kani_value_notes": notes, "kani_check": chk,
+             "replay_panic": r["panic"], "replay_output": r["output_tail"], "search_s": round(time.time() - t0, 1),
+             "how": "Kani concrete playback values fed to the same kernel harness running against the real baa build under `cargo test --cfg verif_replay`",
+             "replay": {"kind": "kl_baa", "harness": o.name, "values": values, "gen": kl.LAST_BAA_GEN}}
+        if r["reproduced"]:
+            break
+    return w
+
+
 def search(prop, o, repo: str, scratch: str):
     from engine import kl
+    if o.engine == "KL" and o.unit == "baa_kernels":
+        return search_baa(prop, o, repo, scratch)
     if o.engine != "KL" or o.unit not in kl.INJECTED:
         return None
     crate_rel, file_rel, inject_rel, _, _ = kl.INJECTED[o.unit]
@@ -100,6 +124,21 @@ def replay_recorded(rec: dict, repo: str) -> int:
     """./check <ID> --replay FILE for a KL witness: rebuild the harness on /repo's CURRENT tree and feed the recorded values"""
     from engine import kl
     import tempfile
+    if rec.get("kind") == "kl_baa":
+        d = tempfile.mkdtemp(prefix="patronus-verif-replay.", dir="/var/tmp")
+        try:
+            gen = dict(rec["gen"])
+            gen["usage"] = {k: list(v) for k, v in kl.eval_arm_usage(repo).items()}   # the arm bodies of the CURRENT tree
+            rc = kl.make_baa_replay_crate(os.path.join(d, "baa_replay"), repo, gen, rec["harness"])
+            r = run_replay(rc, "baa_kernels", rec["harness"], rec["values"])
+            print(r["output_tail"])
+            if not r["built"]:
+                print("replay did not build/run")
+                return 2
+            print("REPRODUCED: " + str(r["panic"]) if r["reproduced"] else "not reproduced on the current tree")
+            return 1 if r["reproduced"] else 0
+        finally:
+            shutil.rmtree(d, ignore_errors=True)
     crate_rel, file_rel, inject_rel, _, _ = kl.INJECTED[rec["unit"]]
     d = tempfile.mkdtemp(prefix="patronus-verif-replay.", dir="/var/tmp")
     try:
